@@ -9,7 +9,10 @@ POST_HOC = {'C02-a': 'C02.FRAME reformulated (first version fired for the wrong 
             'C04-b': 'C04.TESTSET', 'C15-b': 'C15.SHUT/unconditional', 'C02-b': 'C02.PICTYPE',
             'C10-b': 'C10.REINIT', 'C18-b': 'C18.PLUMB', 'C22-b': 'C22 cursor obligations (first flagged for the wrong reason; corrected)', 'C12-b': 'C12.COPY', 'C09-b': 'C09.ONCE',
             'C03-b': 'C03.EOS link 2b', 'C17-b': 'C17.ESCAPE', 'C24-b': 'C24.UNITS', 'C24-c': 'C24.REARM', 'C26-a': 'C26.AXIS (the rest of C26 existed before the seed)',
-            'C27-a': 'C27.RECONEOS / C03.EOS link 5'}
+            'C27-a': 'C27.RECONEOS / C03.EOS link 5', 'C06-a': 'C06.ACC16', 'C07-a': 'C07.SATSIGN', 'C09-a': 'C09.PROGRESS coordinate frame',
+            'C10-c': 'C10.TILESIZE', 'C14-c': 'C14.1b-NESTED', 'C18-c': 'C18 clamp helpers + narrowing (first flagged for the wrong reason: unknown helper; corrected)',
+            'C20-c': 'C20.OFF chain extended to the mode-decision levels', 'C21-c': 'C21.LAYOUT', 'C12-c': 'C12.ACCUM (C16.ERR caught it blind)',
+            'C16-c': 'C16.TEARDOWN (C15.SHUT caught it blind)'}
 rows = []
 for f in sorted(glob.glob(os.path.join(HERE, 'seeded', '*', 'meta.json'))):
     m = json.load(open(f)); sid = os.path.basename(os.path.dirname(f))
@@ -17,7 +20,7 @@ for f in sorted(glob.glob(os.path.join(HERE, 'seeded', '*', 'meta.json'))):
     first = m.get('checks_reporting_violation_when_first_tried', [])
     prop = m['breaks_property']
     rule = ''
-    for l in m.get('new_violation_lines_now', []):
+    for l in m.get('new_violation_lines_now', []) + m.get('own_violation_lines_now', []):
         if l.startswith('violation: [' + prop):
             rule = l.split(']')[0].split('[')[1]; break
     own_now = prop in now
